@@ -18,7 +18,7 @@ OVERLAY_SVC = {"fs/source/verif_labels.go": "fs/source/verif_labels.go",
                "service/verif_labels_cri_test.go": "service/verif_labels_cri_test.go"}
 INTERNAL = ("TamperLogExplains", "ExtraKeepsPreset")
 ALLRD = '{"default", "cri", "chain"}'
-FORMULAS = ("AllLabelsValid", "RoundTrip", "NeighbourUrlsPositional", "PrefetchSizeRoundTrips", "MalformedMandatoryRejected")
+FORMULAS = ("AllLabelsValid", "RoundTrip", "NeighbourUrlsPositional", "PrefetchSizeRoundTrips", "UrlsOwnOrNone", "MalformedMandatoryRejected")
 
 
 def gen(run, cfg, ov, name, timeout=900):
@@ -58,6 +58,8 @@ def classify(c):
         parts.append("repeated-digest")
     if len(man) > 50:
         parts.append("long")
+    if c["ref"] >= 3:
+        parts.append("concrete-ref")
     if len(parts) == 1:
         parts.append("plain")
     return ":".join(parts)
@@ -80,6 +82,9 @@ def check(run):
         "label sizes next to the limit (4094..4097) are covered for urls and urls.<i> (i < 10); the layers labels cannot land there: "
         "digest strings step the size by 72 bytes (4074 -> 4146), so a +-1 error in that loop is unobservable with valid digests",
         "equal digests have the same media type class; config digest differs from all layer digests",
+        "references: two abstract ones (25 / 300 bytes) everywhere + six concrete shapes (name:tag, name@digest, name:tag@digest, "
+        "host:port/name:tag, docker.io/library/..., with and without digest) over 3 manifests, compared byte for byte; "
+        "malformed reference spellings: 4 derived + host-less 'ubuntu:22.04', 'app:v1', ' '",
         "image ref length <= 300 bytes (the writer does not validate the reference label; refs near 4 KiB are not modelled)",
         "an empty-string URL read back for an absent URL list ([\"\"]) counts as no URL (only consumer: ipfs.GetCID prefix match)",
         "a URL list that does not fit into one label is represented by its longest fitting prefix (labels.Validate has priority)",
@@ -98,6 +103,8 @@ def check(run):
         ("Labels_mc_long.cfg", {"MatchedOnly": "TRUE", "RefPfs": "{12}",
                                 "LongNs": "{55, 56, 57, 58, 59, 60}" if thorough else "{57, 60}"}, "long"),
         ("Labels_mc_tamper.cfg", {"MatchedOnly": "TRUE", "MaxTamper": "1", "NVariants": "4", "RefPfs": "{12, 23}" if thorough else "{12}"}, "tamper1x4"),
+        # concrete reference shapes (ref ids 3..8, byte-for-byte round trip) over the three tamper-family manifests
+        ("Labels_mc_tamper.cfg", {"MatchedOnly": "TRUE", "MaxTamper": "0", "RefPfs": "{32, 42, 52, 62, 72, 82}"}, "refs"),
         ("Labels_mc_edge.cfg", {"MatchedOnly": "TRUE", "Readers": ALLRD if thorough else '{"default", "cri"}'}, "edge"),
     ]
     if thorough:
@@ -132,6 +139,7 @@ def check(run):
                 ("Labels_mc_long.cfg", {"WholeDigests": "FALSE", "LongNs": "{60}"}, ["RoundTrip"]),
                 ("Labels_mc_full.cfg", {"UrlIdx": '"child"'}, ["RoundTrip", "NeighbourUrlsPositional"]),
                 ("Labels_mc_full.cfg", {"ReaderSkipsTarget": "FALSE", "MaxLayers": "2"}, ["RoundTrip"]),
+                ("Labels_mc_tamper.cfg", {"ReaderResetsUrls": "FALSE", "MaxTamper": "1", "NVariants": "1"}, ["UrlsOwnOrNone"]),
                 ("Labels_mc_tamper.cfg", {"ReaderChecksDigest": "FALSE", "MaxTamper": "1"}, ["MalformedMandatoryRejected"]),
                 ("Labels_mc_tamper.cfg", {"ReaderChecksRef": "FALSE", "MaxTamper": "1"}, ["MalformedMandatoryRejected"])):
             run.tlc_negctl("Labels", cfg, off, expect, drop=INTERNAL + (more[0] if more else ()))
